@@ -60,4 +60,108 @@ theorem validate_ok_exec_ok_unstaking {s s1 : St} {ht : Int} {tx : TxIn} {sender
     ∃ res, runTrx s1 true ht tx recv = .ok res :=
   unstaking_run_ok hF hs h0 h1 hty hv
 
+
+/-! ### "Later transactions in the same block observe the unchanged state" -/
+
+/-- Since `obs` contains every component of the state except the distinction empty/absent account
+    record, `failed_tx_noop` already says that a later operation reads the same balances, nonces,
+    stakes, rewards, proposals, parameters, limiter and fee sum.  In particular: -/
+theorem failed_tx_same_reads {g : Genesis} {s : St} (hr : Reachable g s) (tx : TxIn) (hF : FeeSane s)
+    (hB : SenderBalSane s tx) (hf : ∀ o, (deliverTx s tx).2.tx = some o → o.code ≠ 0) :
+    (∀ a, nonceOf (deliverTx s tx).1 a = nonceOf s a) ∧ (∀ a, balOf (deliverTx s tx).1 a = balOf s a) ∧
+    (deliverTx s tx).1.blk = s.blk ∧ (deliverTx s tx).1.limiter = s.limiter ∧
+    (deliverTx s tx).1.delegs = s.delegs ∧ (deliverTx s tx).1.frozen = s.frozen ∧
+    (deliverTx s tx).1.rewards = s.rewards ∧ (deliverTx s tx).1.props = s.props ∧
+    (deliverTx s tx).1.active = s.active := by
+  have ho := failed_tx_noop hr tx hF hB hf
+  have hn : ∀ a, nonceOf (deliverTx s tx).1 a = nonceOf s a := by
+    rcases deliverTx_fail_inv hf with e | ⟨b, _, hc, e⟩
+    · intro a; rw [e]
+    · intro a; rw [e]; exact (deliver_failure hc).1 a
+  have hb : ∀ a, balOf (deliverTx s tx).1 a = balOf s a := by
+    rcases deliverTx_fail_inv hf with e | ⟨b, _, hc, e⟩
+    · intro a; rw [e]
+    · intro a; rw [e]
+      obtain ⟨l, _, ee⟩ := handleTx_fail_shape hc
+      exact EmptyExt_bal ee _
+  refine ⟨hn, hb, ?_, ?_, ?_, ?_, ?_, ?_, ?_⟩
+  · exact congrArg Obs.blk ho
+  · exact congrArg Obs.limiter ho
+  · exact congrArg Obs.delegs ho
+  · exact congrArg Obs.frozen ho
+  · exact congrArg Obs.rewards ho
+  · exact congrArg Obs.props ho
+  · exact congrArg Obs.active ho
+
+/-- The only read in the model that distinguishes an empty account record from an absent one is the
+    sender-existence check (`noacct`).  With a positive minimum fee this changes the error kind only:
+    a later transaction *from* an address whose record was created (empty) by the failed transaction
+    fails before and after. -/
+theorem failed_tx_fresh_sender_still_fails {s s' : St} {h : Int} {later : TxIn} {x : Hex}
+    (hs : s.accts.fin[ledgerKey later.from_]? = none)
+    (he : s'.accts.fin[ledgerKey later.from_]? = some (emptyAcct x))
+    (hF : FeeSane s') (hm : 0 < s'.active.minTrxFee) :
+    (handleTx s true h later).2.code ≠ 0 ∧ (handleTx s' true h later).2.code ≠ 0 :=
+  later_from_fresh_fails hs he hF hm
+
+/-- The full congruence — every later delivery answers the same code and leaves obs-equal states —
+    is stated here and NOT proved (it needs a relational pass over every validation / execution
+    function for two states that differ by empty records).  It needs the hypothesis `0 < minTrxFee`:
+    see the counter-example below. -/
+def failed_tx_invisible_statement : Prop :=
+  ∀ (g : Genesis) (s : St), Reachable g s → ∀ tx : TxIn, FeeSane s → 0 < s.active.minTrxFee →
+    (∀ a, s.accts.fin[ledgerKey tx.from_]? = some a → a.bal < 2 ^ 256) →
+    (∀ o, (deliverTx s tx).2.tx = some o → o.code ≠ 0) →
+    ∀ later : TxIn,
+      ((deliverTx (deliverTx s tx).1 later).2.tx.map (·.code)) = ((deliverTx s later).2.tx.map (·.code)) ∧
+      obs (deliverTx (deliverTx s tx).1 later).1 = obs (deliverTx s later).1
+
+/-! #### counter-example without a positive minimum fee
+
+With governance gas price 0 (or `minTrxGas` 0) a failed transfer to a fresh address `X` is visible:
+it leaves the empty record of `X`, and `X` — which could not send anything before ("noacct") — can now
+send a zero-fee transaction that succeeds and bumps its nonce. -/
+
+def gZ : Genesis :=
+  { chainId := "t", params := { (default : Params) with gasPrice := 0, minTrxGas := 0 },
+    holders := [("aa00000000000000000000000000000000000001", 100)], vals := [] }
+def sZ : St := exec (initChain gZ) [.begin_ { height := 1 }]
+/-- fails: wrong nonce -/
+def txBad : TxIn :=
+  { sigOk := true, from_ := "aa00000000000000000000000000000000000001", to := "dd00000000000000000000000000000000000004",
+    amount := 5, nonce := 7, type := TRX_TRANSFER }
+/-- sent by the fresh address -/
+def txFromFresh : TxIn :=
+  { sigOk := true, from_ := "dd00000000000000000000000000000000000004", to := "aa00000000000000000000000000000000000001",
+    type := TRX_TRANSFER }
+
+theorem failed_tx_visible_with_zero_fee :
+    ((deliverTx sZ txBad).2.tx.map fun t => (t.code, t.kind)) = some (5, "nonce") ∧
+    ((deliverTx sZ txFromFresh).2.tx.map fun t => (t.code, t.kind)) = some (5, "noacct") ∧
+    ((deliverTx (deliverTx sZ txBad).1 txFromFresh).2.tx.map fun t => (t.code, t.kind)) = some (0, "ok") ∧
+    nonceOf (deliverTx (deliverTx sZ txBad).1 txFromFresh).1 txFromFresh.from_ = 1 := by
+  decide
+
+/-! ### non-vacuity -/
+
+def gW : Genesis :=
+  { chainId := "t", params := { (default : Params) with gasPrice := 10, minTrxGas := 1 },
+    holders := [("aa00000000000000000000000000000000000001", 1000)], vals := [] }
+def sW : St := exec (initChain gW) [.begin_ { height := 1 }]
+/-- a transfer of more than the sender owns -/
+def txPoor : TxIn :=
+  { sigOk := true, from_ := "aa00000000000000000000000000000000000001", to := "bb00000000000000000000000000000000000002",
+    amount := 5000, gas := 2, price := 10, type := TRX_TRANSFER }
+
+example : Reachable gW sW := ⟨[.begin_ { height := 1 }], by simp [Op.isInit], rfl⟩
+example : FeeSane sW := by unfold FeeSane; decide
+example : SenderBalSane sW txPoor := by
+  intro a ha
+  have : sW.accts.fin[ledgerKey txPoor.from_]? = some { addr := txPoor.from_, bal := 1000 } := by decide
+  rw [this] at ha; simp at ha; subst ha; decide
+example : ((deliverTx sW txPoor).2.tx.map fun t => (t.code, t.kind)) = some (5, "funds") := by decide
+/-- the failed transfer did create the (empty) receiver record -/
+example : (deliverTx sW txPoor).1.accts.fin[ledgerKey txPoor.to]? = some (emptyAcct txPoor.to) ∧
+    sW.accts.fin[ledgerKey txPoor.to]? = none := by decide
+
 end Rigo.C05
